@@ -145,7 +145,7 @@ def required_labels(tier):
 
 
 def phases(tier, seed):
-    n = 9600 if tier == 'quick' else 48000
+    n = 9600 if tier == 'quick' else 400000
     return [
         Enum('steered', lambda: steered(tier, seed), exhaustive=False,
              note='lengths around the capacity of every listed (version, level, mode) and two-part mixes'),
